@@ -135,7 +135,7 @@ func (e *Exec) rnd(r string, underflow bool) string {
 		e.declare(a, "Real")
 	}
 	b := "(* " + relU + " (ite (>= " + rn + " 0.0) " + rn + " (- " + rn + ")))"
-	if underflow {
+	if underflow && !e.noSubnormal {
 		// the absolute term only exists for non-zero results in the subnormal range
 		b = "(+ " + b + " (ite (and (not (= " + rn + " 0.0)) (< (- " + relMinNormal + ") " + rn + ") (< " + rn + " " + relMinNormal + ")) " + relTiny + " 0.0))"
 	}
@@ -273,6 +273,9 @@ func (e *Exec) fBinR(op string, a, b Float) Float {
 }
 
 func (e *Exec) rndUnderflowOnly(r string) string {
+	if e.noSubnormal {
+		return r // exact: scaling by a power of two with no subnormal result (instance assumption)
+	}
 	rn := r
 	if len(r) > 40 {
 		rn = e.fresh("rx")
@@ -509,9 +512,8 @@ func (e *Exec) fToIX(a Float, w int, signed bool) Int {
 	e.declare(n, "Int")
 	// amd64 cvttsd2si: out-of-range values convert to -2^63
 	e.sol.Send("(assert (= " + n + " (let ((tr " + tr + ")) (ite (and (<= (- 9223372036854775808) tr) (<= tr 9223372036854775807)) tr (- 9223372036854775808)))))")
-	bv := e.fresh("t")
-	e.declare(bv, sortBV(64))
-	e.sol.Send("(assert (= " + bv + " ((_ int2bv 64) " + n + ")))")
+	// the bit-vector twin is written inline so that int2bv only enters queries that really use it
+	bv := "((_ int2bv 64) " + n + ")"
 	return Int{W: 64, Signed: true, Sym: bv, RI: n}
 }
 
